@@ -133,6 +133,25 @@ func c15Family(n int) []uriSpec {
 		}
 		bases = append(bases, u)
 	}
+	var special []uriSpec
+	// user parts that contain ';' and '?' (they belong to the user when an '@' follows): with and without real
+	// parameters / headers behind the host, so that text inside the user is never taken for a parameter
+	for ui, us := range []string{"bob;maddr=m?x", "u;ttl=1", "c?a=1;lr", "d;user=phone?a=1&b=2"} {
+		for pi, pl := range [][]string{nil, {"maddr=m"}, {"lr"}, {"ttl=1"}, {"user=phone", "x=1"}} {
+			for hi, hl := range [][]string{nil, {"a=1"}} {
+				if (ui+pi+hi)%2 == 1 && n < 1000 {
+					continue
+				}
+				special = append(special, uriSpec{Scheme: "sip", User: us, Host: "h.example", Port: []string{"", "5060"}[pi%2], Params: pl, Hdrs: hl})
+			}
+		}
+	}
+	// escapes in user and password: the bytes after a %HH escape compare like all others (case-sensitively)
+	for _, us := range []string{"%41lice", "%41Lice", "%41lIce", "al%69ce", "al%69cE"} {
+		for _, pw := range []string{"", "p%40ss", "p%40sS", "p%40Ss"} {
+			special = append(special, uriSpec{Scheme: "sip", User: us, Pass: pw, Host: "h.example"})
+		}
+	}
 	var fam []uriSpec
 	up := func(l []string, names, vals bool) []string {
 		o := make([]string, len(l))
@@ -155,69 +174,73 @@ func c15Family(n int) []uriSpec {
 		}
 		return o
 	}
-	for bi, b := range bases {
-		fam = append(fam, b)
-		v1 := b // re-cased scheme, host, param names+values, header names; reversed order
-		v1.Scheme = strings.ToUpper(b.Scheme)
-		v1.Host = strings.ToUpper(b.Host)
-		v1.Params = rev(up(b.Params, true, true))
-		v1.Hdrs = rev(up(b.Hdrs, true, false))
-		fam = append(fam, v1)
-		v2 := b // near variant: differs in exactly one component
-		switch bi % 6 {
-		case 0:
-			if v2.User != "" {
-				v2.User = strings.ToUpper(v2.User) + "x"
-			} else {
-				v2.User = "u"
+	variants := func(bases []uriSpec) {
+		for bi, b := range bases {
+			fam = append(fam, b)
+			v1 := b // re-cased scheme, host, param names+values, header names; reversed order
+			v1.Scheme = strings.ToUpper(b.Scheme)
+			v1.Host = strings.ToUpper(b.Host)
+			v1.Params = rev(up(b.Params, true, true))
+			v1.Hdrs = rev(up(b.Hdrs, true, false))
+			fam = append(fam, v1)
+			v2 := b // near variant: differs in exactly one component
+			switch bi % 6 {
+			case 0:
+				if v2.User != "" {
+					v2.User = strings.ToUpper(v2.User) + "x"
+				} else {
+					v2.User = "u"
+				}
+			case 1:
+				if strings.HasPrefix(v2.Host, "[") {
+					v2.Host = "[::2]"
+				} else {
+					v2.Host = v2.Host + "2"
+				}
+			case 2:
+				v2.Params = append(append([]string(nil), v2.Params...), "zz=9")
+			case 3:
+				if v2.Port == "" {
+					v2.Port = "5062"
+				} else {
+					v2.Port = ""
+				}
+			case 4:
+				if len(v2.Hdrs) > 0 {
+					h := strings.SplitN(v2.Hdrs[0], "=", 2)
+					v2.Hdrs = append([]string{h[0] + "=" + h[1] + "X"}, v2.Hdrs[1:]...)
+				} else {
+					v2.Hdrs = []string{"q=1"}
+				}
+			case 5:
+				if v2.Pass != "" {
+					v2.Pass = strings.ToUpper(v2.Pass) + "q"
+				} else if v2.User != "" {
+					v2.Pass = "pw"
+				} else {
+					v2.Scheme = map[string]string{"sip": "sips", "sips": "sip"}[v2.Scheme]
+				}
 			}
-		case 1:
-			if strings.HasPrefix(v2.Host, "[") {
-				v2.Host = "[::2]"
-			} else {
-				v2.Host = v2.Host + "2"
-			}
-		case 2:
-			v2.Params = append(append([]string(nil), v2.Params...), "zz=9")
-		case 3:
-			if v2.Port == "" {
-				v2.Port = "5062"
-			} else {
-				v2.Port = ""
-			}
-		case 4:
-			if len(v2.Hdrs) > 0 {
-				h := strings.SplitN(v2.Hdrs[0], "=", 2)
-				v2.Hdrs = append([]string{h[0] + "=" + h[1] + "X"}, v2.Hdrs[1:]...)
-			} else {
-				v2.Hdrs = []string{"q=1"}
-			}
-		case 5:
-			if v2.Pass != "" {
-				v2.Pass = strings.ToUpper(v2.Pass) + "q"
-			} else if v2.User != "" {
-				v2.Pass = "pw"
-			} else {
-				v2.Scheme = map[string]string{"sip": "sips", "sips": "sip"}[v2.Scheme]
-			}
+			fam = append(fam, v2)
+			v3 := b // only parameter order and name case
+			v3.Params = rev(up(b.Params, true, false))
+			fam = append(fam, v3)
+			v4 := b // no parameters at all
+			v4.Params = nil
+			v5 := b // exactly one parameter: one of user/ttl/method/maddr, or an ordinary one
+			v5.Params = []string{[]string{"user=phone", "ttl=1", "method=INVITE", "maddr=m", "x=1", "lr"}[bi%6]}
+			v6 := b // no headers / one header
+			v6.Hdrs = nil
+			v7 := b
+			v7.Hdrs = []string{"a=1"}
+			fam = append(fam, v4, v5, v6, v7)
 		}
-		fam = append(fam, v2)
-		v3 := b // only parameter order and name case
-		v3.Params = rev(up(b.Params, true, false))
-		fam = append(fam, v3)
-		v4 := b // no parameters at all
-		v4.Params = nil
-		v5 := b // exactly one parameter: one of user/ttl/method/maddr, or an ordinary one
-		v5.Params = []string{[]string{"user=phone", "ttl=1", "method=INVITE", "maddr=m", "x=1", "lr"}[bi%6]}
-		v6 := b // no headers / one header
-		v6.Hdrs = nil
-		v7 := b
-		v7.Hdrs = []string{"a=1"}
-		fam = append(fam, v4, v5, v6, v7)
 	}
+	variants(bases)
 	if len(fam) > n {
 		fam = fam[:n]
 	}
+	variants(special)
 	// long lists: 33, 64 and 100 parameters / headers (the comparison works on fixed-size internal arrays)
 	for _, cnt := range []int{33, 64, 100, 101, 130} {
 		var ps, hs []string
